@@ -33,7 +33,7 @@
 
 #define to_bool(a) (a == bloc_true ? true : false)
 
-static struct { const char * msg; int no; } bloc_error = { "", 0 };
+static thread_local struct { const char * msg; int no; } bloc_error = { "", 0 };
 
 const char*
 bloc_strerror() {
